@@ -15,6 +15,7 @@ import gen_toml as G
 
 PROP = "C14"
 COQ_PROPS = "Props/C14.v"
+COQ_PROPS_EXTRA = ["Props/C14spans.v"]
 THEOREMS = ["see Props/C14.v"]
 RULE = ("valid abstract documents with multi-byte characters next to tokens, BOM, CRLF, comments and whitespace around every token, "
         "nested containers, dotted keys, header / array-of-tables layouts; documents rendered for the Spanned struct family in "
